@@ -746,6 +746,7 @@ func discharge(obls []*Obligation, cfg dischargeCfg) {
 }
 
 var solverErrors int32
+var settledFailures int32
 
 func dischargeOne(o *Obligation, cfg dischargeCfg) {
 	if atomic.LoadInt32(&solverErrors) >= 3 {
@@ -816,7 +817,10 @@ func dischargeOne(o *Obligation, cfg dischargeCfg) {
 		if r.Status != "unsat" && r.Status != "sat" {
 			pending["qf"] = true
 		}
-		if r.Status != "unsat" && cfg.retryS > cfg.timeoutS {
+		// the long retry guards against spurious failures under load; once a
+		// few obligations have definitely failed the verdict of the run is
+		// settled and the remaining failures are reported without it
+		if r.Status != "unsat" && cfg.retryS > cfg.timeoutS && atomic.LoadInt32(&settledFailures) < 3 {
 			for _, stg := range stages {
 				if !pending[stg] {
 					continue
@@ -833,6 +837,9 @@ func dischargeOne(o *Obligation, cfg dischargeCfg) {
 		}
 	}
 	o.Status, o.Solver, o.TimeS, o.Answers = r.Status, r.Solver, r.TimeS, r.Answers
+	if r.Status != "unsat" {
+		atomic.AddInt32(&settledFailures, 1)
+	}
 	if r.Status == "sat" {
 		o.Model = r.Output
 	} else if r.Status != "unsat" {
